@@ -10,7 +10,7 @@ import os, subprocess, json
 from lib import vf
 
 MANIFEST = {
-  'text': "Coq theorems over a model of parse.go's value layer in which every partial Go operation is explicit (nodeKindName's default panic, err.Error() on a nil error, field access through a nil *Int/*Float, the index ss[1]) and the results of strconv.Atoi/ParseFloat and of the regexp are universally quantified oracle inputs: no value parser (parseString, checkString, checkSequence, parseExpression, parseStringSequence, parseStringOrStringSequence, parseBool, parseInt, parseFloat, parseMaxParallel, parseTimeoutMinutes) and not handleYAMLError panics on any node of any kind, tag, text and library behaviour; a nil result always comes with a diagnostic; the number of diagnostics is bounded by the node's size; the pre-fix parseFloat is refuted (panics exactly when the library accepts the text as NaN) and the fix is proved conservative; Command.Main's exit status is a total function into {0,1,2,3} with 3 iff a lint run ended with a fatal error. Unbounded (all nodes). The model is tied to the code by evaluating it with vm_compute on the nodes the real yaml.v3 parser produced at every scalar position in charge of a value parser and comparing the diagnostics (position, class) with actionlint.Parse; the same for handleYAMLError and for Command.Main. The property itself is searched for a failing input on the implementation: every other node kind / explicit tag x adversarial text / alias / merge key / depth-200 nesting substituted at node positions of all test workflows and of an every-key workflow, action.yml, reusable workflow and actionlint.yaml; all expression strings up to length 3 (quick) / 4 (thorough) over 24 symbols plus random ones; truncations, bit flips, invalid UTF-8, NUL bytes on all four channels; each batch in a child process (crash / hang narrowed down to one input).",
+  'text': "Coq theorems over a model of parse.go's value layer in which every partial Go operation is explicit (nodeKindName's default panic, err.Error() on a nil error, field access through a nil *Int/*Float, the index ss[1]) and the results of strconv.Atoi/ParseFloat and of the regexp are universally quantified oracle inputs: no value parser (parseString, checkString, checkSequence, parseExpression, parseStringSequence, parseStringOrStringSequence, parseBool, parseInt, parseFloat, parseMaxParallel, parseTimeoutMinutes) and not handleYAMLError panics on any node of any kind, tag, text and library behaviour; a nil result always comes with a diagnostic; the number of diagnostics is bounded by the node's size; the pre-fix parseFloat is refuted (panics exactly when the library accepts the text as NaN) and the fix is proved conservative; Command.Main's exit status is a total function into {0,1,2,3} with 3 iff a lint run ended with a fatal error. Unbounded (all nodes). The model is tied to the code by evaluating it with vm_compute on the nodes the real yaml.v3 parser produced at every scalar position in charge of a value parser and comparing the diagnostics (position, class) with actionlint.Parse; the same for handleYAMLError and for Command.Main. The property itself is searched for a failing input on the implementation: every other node kind / explicit tag x adversarial text / alias / merge key / depth-200 nesting substituted at node positions of all test workflows and of an every-key workflow, action.yml, reusable workflow and actionlint.yaml; all expression strings up to length 3 (quick) / 4 (thorough) over 24 symbols plus random ones; truncations, bit flips, invalid UTF-8, NUL bytes on all four channels; each batch in a child process (crash / hang narrowed down to one input). Source gate: every explicit panic(...), every type assertion without comma-ok and every goroutine start of the package is re-listed from the .go files on every run and proved to be a known one (coq/Wf/PanicSites.v); the cron library's panic on a time zone prefix without fields is modelled (coq/Wf/CronGuard.v: the rule never hands such a spec on) and compared with the library on generated specs.",
   'note': "Partial: the no-panic theorems of the other components (expression lexer/parser C04, semantic checker C06, untrusted-input checker C11, glob C17, needs C18, section parser C13, snippet renderer C16) live with their models; yaml.v3, regexp, text/template, Go stack depth and the unmodelled rules are covered only by the search (not a proof). 'Bounded time' is proved as output-size bounds on structurally recursive functions and measured as wall clock in the harness. Trusted: Coq kernel; hand-written model (correspondence-checked); harness generators, key-path -> value-parser table (checked by K), message -> class table; the hypothesis wf_ynode (node kinds are yaml.v3's five constants) asserted on every tree dumped.",
   'technique': "machine-checked proof in Coq (partiality-explicit result type; library results as universally quantified oracle inputs) + vm_compute correspondence + failing-input search in child processes under recover() and a wall-clock limit",
 }
